@@ -42,6 +42,30 @@ def float_pool(rng, ebits, mbits, n_rand, dense):
     return res
 
 
+def needs_all_digits(rng, fmt, n):
+    """Finite values whose shortest round-tripping decimal needs all 9 (f32) / 17 (f64) significant digits."""
+    import struct
+    out = []
+    tries = 0
+    while len(out) < n and tries < 200000:
+        tries += 1
+        if fmt == "f32":
+            v = rng.getrandbits(32)
+            if (v >> 23) & 0xFF in (0, 0xFF):
+                continue
+            x = struct.unpack("<f", struct.pack("<I", v))[0]
+            back = struct.unpack("<I", struct.pack("<f", float("%.8g" % x)))[0]
+        else:
+            v = rng.getrandbits(64)
+            if (v >> 52) & 0x7FF in (0, 0x7FF):
+                continue
+            x = struct.unpack("<d", struct.pack("<Q", v))[0]
+            back = struct.unpack("<Q", struct.pack("<d", float("%.16g" % x)))[0]
+        if back != v:
+            out.append(v)
+    return out
+
+
 def int_pool(rng, bits, n_rand):
     M = (1 << bits) - 1
     out = [0, 1, M, 1 << (bits - 1), (1 << (bits - 1)) - 1, (1 << (bits - 1)) + 1, 2, M - 1]
@@ -124,10 +148,14 @@ def main():
     nr = 6 if tier == "quick" else 400
     consts = [("f32", x) for x in float_pool(rng, 8, 23, nr, dense)] + [("f64", x) for x in float_pool(rng, 11, 52, nr, dense)] + \
              [("i32", x) for x in int_pool(rng, 32, nr)] + [("i64", x) for x in int_pool(rng, 64, nr)]
+    digits = [("f32", x) for x in needs_all_digits(rng, "f32", 24 if tier == "quick" else 400)] + \
+             [("f64", x) for x in needs_all_digits(rng, "f64", 24 if tier == "quick" else 400)]
     if tier == "quick":
         # keep every class corner, thin out the rest
         keep = consts[::3] + [c for c in consts if c[0] in ("i32", "i64")][:40]
-        consts = list(dict.fromkeys(keep + [c for c in consts if (c[1] >> (20 if c[0] == "f32" else 49)) & 0xFFF in (0x7FF, 0xFFF, 0x7F8, 0xFF8, 0)]))
+        consts = list(dict.fromkeys(keep + digits + [c for c in consts if (c[1] >> (20 if c[0] == "f32" else 49)) & 0xFFF in (0x7FF, 0xFFF, 0x7F8, 0xFF8, 0)]))
+    if tier != "quick":
+        consts = list(dict.fromkeys(consts + digits))
     # classes hit, by the specification's own classification
     wd = common.scratch("c07-")
     try:
